@@ -16,7 +16,7 @@ from core.common import f2b, b2f, close
 from core import impl as I
 
 ID = "C15"
-LEAN_MODULES = ["AcnProofs.C15"]
+LEAN_MODULES = ["AcnProofs.C15", "AcnProofs.C15E2E"]
 DRIVER = "drv_C15"
 REQUIRED_THEOREMS = [
     "Acn.C15.trunc_eq_floor", "Acn.C15.trunc_eq_ceil_before_epoch", "Acn.C15.zero_period_rejected",
@@ -27,6 +27,8 @@ REQUIRED_THEOREMS = [
     "Acn.C15.fit_exact", "Acn.C15.bisection_terminates", "Acn.C15.bisection_answer", "Acn.C15.fit_F9_closed",
     "Acn.C15.trunc_eq_int_div", "Acn.C15.matrix_spec", "Acn.C15.fitDomain_gen", "Acn.C15.fit_exact_gen",
     "Acn.C15.fit_capacity_minimal", "Acn.C15.all_sessions_wellformed_default",
+    "Acn.C15.arrival_lt_departure_iff", "Acn.C15.generate_events_vs_simulator_valid",
+    "Acn.C15.generate_events_end_to_end", "Acn.C15.generate_events_end_to_end_total", "Acn.C15.fit_init_maximal",
 ]
 BUDGET = {"quick": 1200, "thorough": 30000, "search": 12000}
 TRUSTED = [
@@ -133,9 +135,33 @@ def _gen_docs_case(rng):
     start = max(start, 0)
     max_len = None if rng.random() < 0.5 else rng.choice([0, 1, 2, 5, 12, 48, 100, 288])
     ff = rng.random() < (0.7 if _uses_fit(bp) else 0.45)
+    capped_ff = rng.random() < 0.2      # max_len AND force_feasible, sessions longer than max_len, energy above max_len's worth
+    short_small = (not capped_ff) and rng.random() < 0.15   # short stays (2-24 periods), requests below 1.6 kWh
+    if capped_ff:
+        max_len = rng.choice([1, 2, 5, 12, 24, 48])
+        ff = True
     docs = []
     n = rng.randint(1, 8)
     for k in range(n):
+        if capped_ff or short_small:
+            c = start + rng.randint(0, 2 * 86400)
+            if rng.random() < 0.4:
+                c = c - c % psec + rng.choice([0, 1, psec - 1])
+            if capped_ff:
+                stay0 = max_len + rng.choice([1, 2, 10, 100])
+                d = (c // psec + stay0) * psec + rng.randint(0, psec - 1)
+                kwh = maxp * max_len * (period / 60) * rng.choice([1.0000001, 1.01, 1.5, 3.0, 10.0])
+                if rng.random() < 0.15:
+                    kwh = maxp * max_len * (period / 60) * rng.choice([1.0, 0.5])
+                if _uses_fit(bp):
+                    kwh = min(kwh, 78.0)
+            else:
+                stay0 = rng.randint(2, 24)
+                d = (c // psec + stay0) * psec + rng.randint(0, psec - 1)
+                kwh = rng.choice([rng.uniform(0.01, 1.6), rng.uniform(0.01, 0.3), 0.05, 1.59])
+            docs.append({"c": int(c), "d": int(d), "kwh": float(kwh), "sid": f"2_39_{k}_{c}",
+                         "space": rng.choice(["CA-319", "AG-3F22", f"SP-{k}"]), "tz": rng.choice(ZONES)})
+            continue
         r = rng.random()
         if r < 0.45:
             c = start - start % psec + rng.randint(0, 600) * psec + rng.choice([0, 0, 1, -1, psec - 1, psec // 2])
@@ -250,9 +276,169 @@ def _gen_fit_case(rng):
         E = rng.choice([0.0, 1.0, 5.0, 100.5, 150.0, 1e-9])
     else:
         E = rng.uniform(0, 100)
+    if rng.random() < 0.18:
+        # small requests (< 20 % of the smallest ladder battery) with SHORT stays: both branches of the fit
+        T = rng.randint(2, 24)
+        E = rng.choice([rng.uniform(0.01, 1.6), rng.uniform(0.01, 0.4), 1.6 * rng.random() ** 2, 0.05, 0.8, 1.59])
+        if rng.random() < 0.5:
+            # around the boundary between the closed-form and the bisection branch for the 8 kWh battery
+            q = math.exp(-(_maxp_fit(V) / 8 / (60 / P)) * T / 0.2)
+            E = min(1.6 * (1 - q) * rng.choice([0.9, 0.99, 0.999999, 1.000001, 1.01, 1.1, 1.3, 2.0]), 1.599)
     if rng.random() < 0.02:
         T = 0
     return {"k": "fit", "E": float(E), "T": T, "V": V, "P": P}
+
+
+
+# ------------------------------------------------------------------ end to end (real DataClient over a fake transport)
+
+E2E_BASE = "https://ev.caltech.edu/api/v1/"
+
+
+def _gen_e2e_case(rng):
+    """the docs stream's cases, served as JSON pages to the REAL client by a fake `requests.get`"""
+    case = _gen_docs_case(rng)
+    case["k"] = "e2e"
+    case["site"] = rng.choice(["caltech", "jpl", "office001"])
+    case["end"] = case["start"] + rng.choice([86400, 7 * 86400, 3600])
+    sizes = []
+    left = len(case["docs"])
+    while left > 0:
+        n = rng.choice([0, 1, 1, 2, 3, left])
+        n = min(n, left)
+        sizes.append(n)
+        left -= n
+    if rng.random() < 0.3:
+        sizes.append(0)           # an empty last page
+    case["page_sizes"] = sizes or [0]
+    case["fault"] = None
+    r = rng.random()
+    if r < 0.06:
+        case["site"] = rng.choice(["Caltech", "jpl2", ""])
+    elif r < 0.2:
+        case["fault"] = {"page": rng.randrange(len(case["page_sizes"])),
+                         "kind": rng.choice(["notjson", "transport", "errdoc", "nolinks", "no_timezone", "bad_zone"])}
+    return case
+
+
+def _e2e_first_url(case):
+    """written from the API description, not from the client"""
+    cond = 'connectionTime >= "%s" and connectionTime <= "%s"' % (_rfc(case["start"]), _rfc(case["end"]))
+    return E2E_BASE + "sessions/" + case["site"] + "?where=" + cond + "&sort=connectionTime&max_results=100"
+
+
+def _e2e_pages(case):
+    """[(url, page spec in the format of C20's fake server)]"""
+    docs = list(enumerate(case["docs"]))
+    out = []
+    url = _e2e_first_url(case)
+    f = case.get("fault")
+    pos = 0
+    for i, n in enumerate(case["page_sizes"]):
+        items = []
+        for k, d in docs[pos:pos + n]:
+            j = _doc_json(d, k)
+            if f and f["page"] == i and f["kind"] == "no_timezone" and (k - pos) == 0:
+                del j["timezone"]
+            if f and f["page"] == i and f["kind"] == "bad_zone" and (k - pos) == 0:
+                j["timezone"] = "Mars/Olympus"
+            items.append([[key, j[key]] for key in sorted(j)])
+        pos += n
+        last = i == len(case["page_sizes"]) - 1
+        href = None if last else "sessions/%s?page=%d&max_results=100" % (case["site"], i + 2)
+        p = {"kind": "page", "items": items, "next": "last" if last else "next", "href": href}
+        if f and f["page"] == i:
+            if f["kind"] in ("notjson", "transport", "errdoc"):
+                p = {"kind": f["kind"]}
+            elif f["kind"] == "nolinks":
+                p["next"] = "nolinks"
+        out.append((url, p))
+        if p.get("next") != "next":
+            break
+        url = E2E_BASE + href
+    return out
+
+
+def _e2e_err(e):
+    n = type(e).__name__
+    return {"ConnectionError": "Transport", "ZeroDivisionError": "Other:ZeroDivisionError",
+            "RecursionError": "Other:RecursionError"}.get(n, n)
+
+
+def _run_e2e(case):
+    import requests
+    from unittest import mock
+    from props import C20
+    from acnportal.acnsim.events import acndata_events
+    pages = _e2e_pages(case)
+    srv = {C20._ckey(u): p for u, p in pages}
+    log = []
+
+    def fake_get(url, *a, **kw):
+        log.append({"url": url, "auth": list(kw.get("auth") or ())})
+        if len(log) > 60:
+            raise requests.exceptions.ConnectionError("cut-off")
+        p = srv.get(C20._ckey(url))
+        if p is None or p["kind"] == "errdoc":
+            return C20._Resp({"_status": "ERR", "_error": {"code": 404, "message": "not found"}}, status=404)
+        if p["kind"] == "notjson":
+            return C20._Resp(notjson=True, status=502)
+        if p["kind"] == "transport":
+            raise requests.exceptions.ConnectionError("refused")
+        return C20._Resp(C20._payload(p))
+
+    start = datetime.fromtimestamp(case["start"], pytz.timezone(case["start_tz"]))
+    end = datetime.fromtimestamp(case["end"], pytz.timezone(case["start_tz"]))
+    kwargs = {}
+    if case["max_len"] is not None:
+        kwargs["max_len"] = case["max_len"]
+    if case["bp"] is not None:
+        kwargs["battery_params"] = _impl_bp(case["bp"])
+    if case["ff"]:
+        kwargs["force_feasible"] = True
+    obs = {"err": None}
+    with mock.patch.object(requests, "get", fake_get):
+        try:
+            q = acndata_events.generate_events("tok3n", case["site"], start, end, case["period"], case["V"], case["maxp"], **kwargs)
+        except Exception as e:  # noqa
+            obs = {"err": _e2e_err(e), "msg": str(e)[:120]}
+    obs["gets"] = list(log)
+    if obs["err"] is None:
+        evs, nq = _obs_evs(q, case)
+        obs.update({"evs": evs, "n_events": nq})
+        # server order: the list get_evs returns (second, independent pass through the same server)
+        with mock.patch.object(requests, "get", fake_get):
+            try:
+                obs["order"] = [ev.session_id for ev in acndata_events.get_evs(
+                    "tok3n", case["site"], start, end, case["period"], case["V"], case["maxp"], **kwargs)]
+            except Exception as e:  # noqa
+                obs["order"] = "err:" + _e2e_err(e)
+    return obs
+
+
+def _e2e_model_request(case):
+    from props import C20
+    base = {"op": "e2e", "base": E2E_BASE, "site": case["site"], "start": case["start"], "end": case["end"],
+            "period": f2b(case["period"]), "V": f2b(case["V"]), "maxp": f2b(case["maxp"]), "ff": bool(case["ff"]),
+            "bp": _bp_wire(case["bp"]), "pilot": f2b(_pilot(case)), "nmax": NMAX, "max_len": case["max_len"], "fuel": 80}
+    names = set(["UTC"])
+    server = []
+    for u, p in _e2e_pages(case):
+        if p["kind"] != "page":
+            server.append([u, {"kind": "fail", "err": {"notjson": "JSONDecodeError", "transport": "Transport", "errdoc": "KeyError"}[p["kind"]]}])
+            continue
+        items = []
+        for d in p["items"]:
+            dd = dict(d)
+            if isinstance(dd.get("timezone"), str):
+                names.add(dd["timezone"])
+            items.append({"fields": [[k, ({"s": v} if isinstance(v, str) else {"o": True})] for k, v in d],
+                          "kwh": f2b(dd["kWhDelivered"])})
+        nx = {"t": "next", "href": p["href"]} if p["next"] == "next" else ({"t": "last"} if p["next"] == "last" else {"t": "broken"})
+        server.append([u, {"kind": "page", "items": items, "next": nx}])
+    base["server"] = server
+    base["zones"] = C20.zones_wire(names)
+    return base
 
 
 def corpus():
@@ -295,6 +481,12 @@ def _fit_grid():
                 lin = _maxp_fit(V) * T * (P / 60)
                 for fr in (1e-3, 0.01, 0.05, 0.1, 0.2, 0.3, 0.45, 0.5, 0.6, 0.8, 0.999, 1.0):
                     out.append({"k": "fit", "E": float(lin * fr), "T": T, "V": V, "P": P})
+    # small requests (< 20 % of the 8 kWh ladder battery) with short stays (2-24 periods)
+    for T in (2, 3, 4, 6, 8, 12, 16, 24):
+        for V in (208, 240):
+            for P in (1, 5, 15):
+                for E in (0.02, 0.1, 0.25, 0.5, 0.8, 1.0, 1.3, 1.59):
+                    out.append({"k": "fit", "E": E, "T": T, "V": V, "P": P})
     return out
 
 
@@ -304,7 +496,9 @@ def generate(rng, n, tier):
         out.extend(_fit_grid())
     for i in range(n):
         r = i % 20
-        if r < 9:
+        if r < 3:
+            out.append(_gen_e2e_case(rng))
+        elif r < 9:
             out.append(_gen_docs_case(rng))
         elif r < 14:
             out.append(_gen_samples_case(rng, exact=(r == 13)))
@@ -492,6 +686,8 @@ def _run_fit(case):
 
 def run_impl(case):
     k = case["k"]
+    if k == "e2e":
+        return _run_e2e(case)
     if k == "docs":
         return _run_docs(case)
     if k == "samples":
@@ -513,6 +709,8 @@ def _bp_wire(bp):
 
 def model_request(case):
     k = case["k"]
+    if k == "e2e":
+        return _e2e_model_request(case)
     if k == "fit":
         T = case["T"]
         return {"op": "fit", "E": f2b(case["E"]), "T": f2b(T), "V": f2b(case["V"]), "P": f2b(case["P"]),
@@ -543,9 +741,20 @@ def _close_fit(a, b, cap):
 
 def compare(case, obs, model):
     out = []
+    if case["k"] == "e2e" and model.get("err") == "OutOfFuel":
+        # the composed model reports the bisection's exhausted fuel through the client's error enum
+        # (no page cycles are generated, so this is the only source of OutOfFuel)
+        model = dict(model, err="Other:RecursionError")
     if obs["err"] != model["err"]:
         # Python's RecursionError limit vs model fuel is not a behaviour of interest; everything else is
         return [f"error class impl={obs['err']} ({obs.get('msg')}) model={model['err']}"]
+    if case["k"] == "e2e":
+        from props import C20
+        iu = [C20._canon_url(g["url"]) for g in obs["gets"]]
+        mu = [C20._canon_url(u) for u in model["urls"]]
+        # the model reports no URL list when the call dies before the generator is consumed
+        if (obs["err"] is None or model.get("n_before") is not None) and iu != mu:
+            out.append(f"requested URLs impl={iu} model={mu}")
     if obs["err"] is not None:
         return out
     if case["k"] == "fit":
@@ -842,7 +1051,50 @@ def _oracle_fit(case, obs):
     return fails
 
 
+def _oracle_e2e(case, obs):
+    from props import C20
+    fails = []
+    pages = _e2e_pages(case)
+    want_urls = [C20._canon_url(u) for u, _ in pages]
+    got_urls = [C20._canon_url(g["url"]) for g in obs["gets"]]
+    f = case.get("fault")
+    if case["period"] == 0:
+        if obs["err"] != "Other:ZeroDivisionError" or got_urls:
+            fails.append({"kind": "zero_period_not_rejected", "detail": f"{obs.get('err')} after {len(got_urls)} requests"})
+        return fails
+    if case["site"] not in ("caltech", "jpl", "office001"):
+        if obs["err"] != "ValueError" or got_urls:
+            fails.append({"kind": "invalid_site_not_rejected_before_request", "detail": f"{obs.get('err')} after {len(got_urls)} requests"})
+        return fails
+    if any(g["auth"] != ["tok3n", ""] for g in obs["gets"]):
+        fails.append({"kind": "token_not_sent", "detail": str(obs["gets"][:1])})
+    if f is not None and f["page"] < len(pages) and not (f["kind"] in ("no_timezone", "bad_zone") and not pages[f["page"]][1].get("items")):
+        want = {"notjson": "JSONDecodeError", "transport": "Transport", "errdoc": "KeyError", "nolinks": "KeyError",
+                "no_timezone": "KeyError", "bad_zone": "UnknownTimeZoneError"}[f["kind"]]
+        # an earlier document may legitimately abort the call first (capacity_fn / constructor ValueError)
+        if obs["err"] is None:
+            fails.append({"kind": "transport_fault_swallowed", "detail": f"fault {f} but the call returned a queue"})
+        elif obs["err"] != want and obs["err"] not in ("ValueError", "Other:RecursionError"):
+            fails.append({"kind": "transport_fault_wrong_error", "detail": f"fault {f}: {obs['err']} (expected {want})"})
+        if got_urls != want_urls[:len(got_urls)] or len(got_urls) > f["page"] + 1:
+            fails.append({"kind": "requests_not_following_links", "detail": f"requested {got_urls}"})
+        return fails
+    if obs["err"] is None:
+        # one request per page of the chain, in chain order, none after the last page
+        if got_urls != want_urls:
+            fails.append({"kind": "requests_not_following_links", "detail": f"requested {got_urls} expected {want_urls}"})
+        if obs.get("order") != [d["sid"] for d in case["docs"]]:
+            fails.append({"kind": "sessions_not_in_server_order", "detail": f"{obs.get('order')}"})
+    else:
+        if got_urls != want_urls[:len(got_urls)]:
+            fails.append({"kind": "requests_not_following_links", "detail": f"requested {got_urls} expected a prefix of {want_urls}"})
+    fails.extend(_oracle_docs(case, dict(obs, client_calls=1)))
+    return fails
+
+
 def oracle(case, obs):
+    if case["k"] == "e2e":
+        return _oracle_e2e(case, obs)
     if case["k"] == "docs":
         return _oracle_docs(case, obs)
     if case["k"] == "samples":
@@ -862,12 +1114,25 @@ def _fit_branch(E, T, V, P, cap):
 def features(case, obs):
     k = case["k"]
     out = ["stream:" + k]
+    if k == "e2e":
+        out.append("e2e:pages:%d" % min(len(case["page_sizes"]), 4))
+        if 0 in case["page_sizes"]:
+            out.append("e2e:empty_page")
+        out.append("e2e:fault:" + (case["fault"]["kind"] if case.get("fault") else "none"))
+        out.append("e2e:requests:%d" % min(len(obs.get("gets", [])), 5))
+        if obs.get("err") is None:
+            out.extend(f.replace("docs:", "e2e:") for f in features(dict(case, k="docs"), obs) if f.startswith("docs:") and not f.startswith("docs:tz"))
+        else:
+            out.append("e2e:err:" + obs["err"])
+        return out
     if obs.get("err") is not None:
         out.append(f"{k}:err:" + obs["err"])
         return out
     if k == "fit":
         out.append("fit:cap:%g" % obs["cap"])
         out.append("fit:branch:" + _fit_branch(case["E"], case["T"], case["V"], case["P"], obs["cap"]))
+        if 2 <= case["T"] <= 24 and case["E"] < 1.6:
+            out.append("fit:small_short:" + _fit_branch(case["E"], case["T"], case["V"], case["P"], obs["cap"]))
         lin = 32 * case["V"] / 1000 * case["T"] * (case["P"] / 60)
         if lin > 0:
             r = case["E"] / lin
@@ -894,6 +1159,10 @@ def features(case, obs):
                 out.append("docs:capped")
             if case["ff"] and I.num(o["requested"]) < d["kwh"]:
                 out.append("docs:ff_reduced")
+                if case["max_len"] is not None and st == case["max_len"]:
+                    out.append("docs:capped_and_ff_reduced")
+            if _uses_fit(bp) and 2 <= st <= 24 and I.num(o["requested"]) < 1.6:
+                out.append("docs:fit_small_short")
             fl = math.floor(Fraction(d["c"] - case["start"]) / (60 * Fraction(P)))
             if fl != o["arrival"]:
                 out.append("docs:floor_of_difference_differs")
@@ -912,7 +1181,7 @@ def features(case, obs):
 
 def nontrivial(case, obs):
     fs = features(case, obs)
-    keys = ("docs:stay:0", "docs:connect_on_boundary", "docs:capped", "docs:ff_reduced", "docs:fit:", "samples:skipped",
+    keys = ("e2e:", "docs:stay:0", "docs:connect_on_boundary", "docs:capped", "docs:ff_reduced", "docs:fit:", "samples:skipped",
             "samples:stay:0", "fit:branch", ":err:", "docs:floor_of_difference_differs", "samples:bp:two+fit")
     return any(any(f.startswith(k) or k in f for k in keys) for f in fs)
 
